@@ -13,7 +13,12 @@ from .core import HarnessError
 
 def request_of(sc: Dict[str, Any]) -> Dict[str, Any]:
     segs, _ = R.layout(sc["prog"])
+    extra: Dict[str, Any] = {}
+    if sc.get("kbirq") is not None:
+        extra["kbirq"] = bool(sc["kbirq"])
     return {
+        **extra,
+        "imem": [[o, d.hex()] for o, d in R.imem_init(sc)], "im_lo": R.IM_LO, "im_hi": R.IM_HI,
         "rom": [[a, d.hex()] for a, d in segs], "rom_base": R.ROM_BASE, "rom_size": R.ROM_SIZE,
         "pc": R.MAIN, "s": R.STACK_TOP, "u": R.USTACK_TOP,
         "ba": int(sc.get("ba0", 0x1234)), "i": int(sc.get("i0", 1)), "x": int(sc.get("x0", 0x0B8100)),
